@@ -115,7 +115,7 @@ def oracle_guard(cases, implA, implB):
         else:
             for a in sb:
                 if a.get('g') == 'BAD':
-                    out.append(Finding('oracle', c, a['i'], 'guard: bytes adjacent to the buffer were modified by op "%s"' % c.ops[a['i']], fill='3c'))
+                    out.append(Finding('oracle', c, a['i'], 'guard: bytes adjacent to the buffer were modified by op "%s"' % c.ops[a['i']], fill='00'))
                     break
             else:
                 for a, b in zip(sa, sb):
@@ -385,15 +385,18 @@ def oracle_pstr(cases, impl, props):
                     bad = 'prefix: read-only size() = %s, expected %d' % (sz, p + plen)
             elif op[0] == 'ro' and r == 'E' and cur is not None and is_utf8(cur) and 'C13' in props:
                 bad = 'prefix: read-only reload refuses bytes the mutable view held as a string'
-            if op[0] == 'ro' and 'C11' in props and 'b' in a:
+            if op[0] == 'ro' and 'b' in a and not bad:
                 buf = unhex(a['b'])
                 ln = int.from_bytes(buf[:p], 'little')
                 if ln <= len(buf) - p:
-                    valid = is_utf8(buf[p:p + ln])
+                    pay = buf[p:p + ln]
+                    valid = is_utf8(pay)
                     if r == 'E' and valid:
-                        bad = 'utf8: from_bytes refused a valid UTF-8 payload'
-                    if r.startswith('O') and not valid:
-                        bad = 'utf8: from_bytes accepted a payload that is not UTF-8: %s' % buf[p:p + ln].hex()
+                        bad = ('prefix: ' if 'C13' in props else 'utf8: ') + 'from_bytes refused a valid UTF-8 payload of %d bytes (bytes beyond the recorded length must be ignored)' % ln
+                    if r.startswith('O') and not valid and 'C11' in props:
+                        bad = 'utf8: from_bytes accepted a payload that is not UTF-8: %s' % pay.hex()
+                    if r.startswith('O') and valid and 'C13' in props and r != 'O%s:%d' % (pay.hex() or '-', p + ln):
+                        bad = 'prefix: from_bytes over recorded length %d returned %s' % (ln, r[:60])
             if bad:
                 out.append(Finding('oracle', c, a['i'], bad))
                 break
@@ -412,7 +415,7 @@ def oracle_podstr(cases, impl, props):
             bad = None
             if r == 'P':
                 if op[0] != 'loadshort':
-                    bad = 'podstr: op "%s" panicked' % op[0]
+                    out.append(Finding('oracle', c, a['i'], 'podstr: op "%s" panicked' % c.ops[a['i']]))
                 break
             if op[0] in ('from', 'fromstring', 'copy', 'copysl'):
                 src = unhex(op[1])
